@@ -137,8 +137,7 @@ theorem tcp_closed_form (buflen : Nat) (s : Stream) :
       · rw [hfs] at hl; simp at hl
       · simp [Array.getD]
     simp only [hn]
-    unfold Generated.std_tcp_too_big
-    simp only [decide_eq_true_eq]
+    simp only [std_tcp_too_big_eq, decide_eq_true_eq]
     by_cases hbig : announced (flat s) > buflen
     · simp [hbig]
     · simp only [hbig, if_false]
@@ -212,7 +211,8 @@ example : tcpFraming 512 ⟨[#[0], #[3, 0xaa], #[0xbb, 0xcc, 0xdd]], true⟩ = .
 theorem async_framing_is_std :
     (∀ b0 b1, Generated.async_tcp_prefix b0 b1 = Generated.std_tcp_prefix b0 b1) ∧
     (∀ n b, Generated.async_tcp_too_big n b = Generated.std_tcp_too_big n b) :=
-  ⟨fun _ _ => rfl, fun _ _ => rfl⟩
+  ⟨fun b0 b1 => by unfold Generated.async_tcp_prefix Generated.std_tcp_prefix; guard_closed,
+   fun n b => by rw [async_tcp_too_big_eq, std_tcp_too_big_eq]⟩
 
 /-- `u16::from_be_bytes(prefix) as usize` is the big-endian value of the two octets, and the answer is
     refused exactly when that value exceeds the caller's buffer -/
